@@ -92,6 +92,10 @@ def _value_equality_hash(self: _SupportsValueEquality) -> int:
     return hash((self._value_equality_values_cls_(), self._value_equality_values_()))
 
 
+def _value_equality_values_of_self(self: _SupportsValueEquality) -> Any:
+    return self._value_equality_values_()
+
+
 def _value_equality_approx_eq(
     self: _SupportsValueEquality, other: _SupportsValueEquality, atol: float
 ) -> bool:
@@ -246,7 +250,9 @@ def value_equality(
 
     if approximate:
         if not hasattr(cls, '_value_equality_approximate_values_'):
-            setattr(cls, '_value_equality_approximate_values_', cached_values_getter)
+            # Looked up on the instance, so that a decorated subclass with its own (possibly
+            # uncached) `_value_equality_values_` is not compared by its parent's cached values.
+            setattr(cls, '_value_equality_approximate_values_', _value_equality_values_of_self)
         else:
             approx_values_getter = getattr(cls, '_value_equality_approximate_values_')
             cached_approx_values_getter = (
